@@ -260,16 +260,22 @@ PROPS = {
     },
     "C09": {
         "module": "HctlProofs.Props.C09",
+        "extra_modules": ["HctlProofs.Lemmas.KeyProof"],
         "theorems": ["Hctl.C09.renaming_injective", "Hctl.C09.renaming_names", "Hctl.C09.renaming_total",
-                     "Hctl.C09.canonName_injective", "Hctl.C09.dupIncr_keys"],
+                     "Hctl.C09.canonName_injective", "Hctl.C09.dupIncr_keys", "Hctl.canonChars_render", "Hctl.canon_eq_of_key_eq",
+                     "Hctl.canonTreeAux_shape", "Hctl.eq_mapVars_of_canon_eq", "Hctl.canonTreeAux_mapKeys", "Hctl.sat_renameVar",
+                     "Hctl.keySem_holds", "Hctl.keyWild_holds"],
         "ks": ["k5", "k6"],
         "spec_tied": [],
         "full": False,
-        "not_proved": "proved for the tree-level pass canonTree: the renaming is a total injective function onto fresh names var0, var1, …. "
-                      "NOT proved in Lean: (a) that the character-level pass of the code equals rendering canonTree (checked by K5: requests "
-                      "`canon` and `canont` must both agree with the implementation on every sub-formula), (b) same canonical form <=> equal "
-                      "up to renaming, (c) idempotence, (d) the duplicate-counter bound; (b)-(d) are decided by the model-free oracles of "
-                      "K5/K6 (independent alpha-normal form, independent occurrence count) and the model<->code correspondence",
+        "not_proved": "proved: the character-level pass of the code on a rendering equals the rendering of the tree-level canonical form, with "
+                      "the same renaming (canonChars_render, every tree over valid identifiers); the renaming is a total injective function "
+                      "onto fresh names var0, var1, …; the canonical form has the shape of the tree (canonTreeAux_shape) and canonisation "
+                      "commutes with injective renamings (canonTreeAux_mapKeys); for keys with at most one variable — the only ones the "
+                      "cache uses — equal canonical forms mean equal up to renaming and the same semantics after renaming (keySem_holds). "
+                      "NOT proved in Lean: 'same canonical form <=> alpha-equivalent' for several variables, idempotence of canonisation, "
+                      "and the duplicate-counter bound; these are decided by the model-free oracles of K5/K6 (independent alpha-normal "
+                      "form, independent occurrence count) and the model<->code correspondence",
         "rule": "K5: every sub-formula of all preprocessed trees with <= 4 (5) nodes + random preprocessed trees (propositions such as a3, V_b); "
                 "pairwise oracle: same canonical form iff same alpha-normal form. K6: batches of 1-4 formulae with planted overlaps "
                 "(renamed, under same/different/nested domains, under jumps); oracle: independent occurrence count",
@@ -283,7 +289,7 @@ PROPS = {
         "ks": ["o04", "k7"],
         "spec_tied": ["o04:pure_", "k7:pure_"],
         "full": False,
-        "not_proved": 'hypotheses of the cache theorem, NOT proved in Lean: KeySem (equal canonical keys => the cached set renamed back denotes the other sub-formula), KeyWild (only %w% has the key of %w%), GraphAsync (a transition changes the state), and that all keys in the duplicate map have at most one variable; they are the semantic content of C09 and of the library specification, and are exercised by K5/K6/K7 and the batch oracles on every run' + "; the initial context with wild-cards pre-loaded (extend_context_with_wild_cards) is covered "
+        "not_proved": 'the two key facts the cache theorem needs are now DERIVED from the canoniser model (keySem_holds: equal keys => equal canonical trees => the cached set renamed back denotes the other sub-formula; keyWild_holds), via canonChars_render (character-level canoniser = tree-level canonical form), render_injective and sat_renameVar. Remaining hypotheses (definitions, not axioms): CharsOK (facts about Rust character classes, checked against std by K1), CtxSC (context sets do not depend on the variable slots), the top-level unit does not constrain the variable slots, GraphAsync (a transition changes the state), and for the initial context: every key in the duplicate map has at most one variable for every legitimate tree carrying it (not yet derived from the markDups model; exercised by K6 and the batch oracles)' + "; the initial context with wild-cards pre-loaded (extend_context_with_wild_cards) is covered "
                       "by the invariant's clauses but not derived from the model's function in Lean; the progress callback is not "
                       "an input of the model (it only receives references in Rust) — checked by the oracle",
         "rule": "O04: batches of 2-4 extended formulae with planted overlaps (sub-formulae shared up to renaming, closed under fresh "
@@ -298,7 +304,7 @@ PROPS = {
         "ks": ["o14", "k7"],
         "spec_tied": ["o14:pure_", "k7:pure_"],
         "full": False,
-        "not_proved": 'hypotheses of the cache theorem, NOT proved in Lean: KeySem (equal canonical keys => the cached set renamed back denotes the other sub-formula), KeyWild (only %w% has the key of %w%), GraphAsync (a transition changes the state), and that all keys in the duplicate map have at most one variable; they are the semantic content of C09 and of the library specification, and are exercised by K5/K6/K7 and the batch oracles on every run' + "; stated for plain formulae (the extended case adds the clause 'missing context label' "
+        "not_proved": 'the two key facts the cache theorem needs are now DERIVED from the canoniser model (keySem_holds: equal keys => equal canonical trees => the cached set renamed back denotes the other sub-formula; keyWild_holds), via canonChars_render (character-level canoniser = tree-level canonical form), render_injective and sat_renameVar. Remaining hypotheses (definitions, not axioms): CharsOK (facts about Rust character classes, checked against std by K1), CtxSC (context sets do not depend on the variable slots), the top-level unit does not constrain the variable slots, GraphAsync (a transition changes the state), and for the initial context: every key in the duplicate map has at most one variable for every legitimate tree carrying it (not yet derived from the markDups model; exercised by K6 and the batch oracles)' + "; stated for plain formulae (the extended case adds the clause 'missing context label' "
                       "which the model checks in parseAll and the correspondence compares); panics inside the BDD / graph libraries "
                       "and stack exhaustion on unbounded nesting are outside the model",
         "rule": "O14: every string entry point (plain/extended, raw/sanitised, unsafe_ex) under catch_unwind on random, "
